@@ -21,6 +21,11 @@ pub const NL: usize = 4;
 #[derive(Debug, Clone, Serialize, Deserialize)]
 pub struct SockCase {
     pub cfg: RingCfg,
+    /// `Connect` entries are kept (else dropped from the batches) — a minority of the cases, so
+    /// that a defect confined to one constructor cannot end most cases early
+    pub ring_connect: bool,
+    /// `Accept { addr: true }` keeps its out-parameters (else they are null)
+    pub accept_addr: bool,
     pub steps: Vec<Step>,
 }
 
@@ -56,7 +61,7 @@ pub enum SRef {
 
 #[derive(Debug, Clone, Serialize, Deserialize)]
 pub enum SOp {
-    /// dom: 0 UNIX 1 INET 2 INET6 3 AF_MAX; ty: 0 STREAM 1 DGRAM 2 SEQPACKET 3 RAW; proto: 0 -> 0, 1 -> 6, 2 -> 17, 3 -> 99
+    /// dom: 0 UNIX 1 INET 2 INET6 3 AF_MAX; ty: 0 STREAM 1 DGRAM 2 SEQPACKET 3 RDM (a raw socket would see other processes' traffic); proto: 0 -> 0, 1 -> 6, 2 -> 17, 3 -> 99
     Socket { dom: u8, ty: u8, nb: bool, ce: bool, proto: u8 },
     /// to: 0 the lane's listener path, 1 a missing path, 2 the path of a regular file
     Connect { sock: SRef, to: u8 },
@@ -104,7 +109,6 @@ struct Lane {
     slots: Vec<Option<i32>>,
     /// bytes handed to sendmsg per slot (bound on what can sit in socket buffers)
     sent: Vec<usize>,
-    upending: usize,
     ipending: usize,
     /// inet client and accepted sockets: only closed at the end
     extra: Vec<i32>,
@@ -130,6 +134,7 @@ impl World {
         for k in 0..NL {
             let dir = format!("{prefix}/l{k}");
             std::fs::create_dir_all(&dir).unwrap();
+            sys::empty_dir(std::path::Path::new(&dir), &["d0"]);
             std::fs::write(format!("{dir}/passme"), format!("lane {k} file\n")).unwrap();
             unsafe {
                 let c = sys::cstr(format!("{dir}/passme").as_bytes());
@@ -155,7 +160,7 @@ impl World {
                         ilisten = -1;
                     }
                 }
-                lanes.push(Lane { dir, ulisten, ilisten, iport, file, slots: Vec::new(), sent: Vec::new(), upending: 0, ipending: 0, extra: Vec::new() });
+                lanes.push(Lane { dir, ulisten, ilisten, iport, file, slots: Vec::new(), sent: Vec::new(), ipending: 0, extra: Vec::new() });
             }
         }
         World { prefix: prefix.to_string(), lanes }
@@ -198,13 +203,26 @@ impl World {
                 let (sa, sl) = sun(format!("{}/srv", l.dir).as_bytes());
                 let r = libc::connect(c, (&sa as *const libc::sockaddr_un).cast(), sl);
                 assert_eq!(0, r, "harness: unix connect failed: {}", sys::errno());
-                l.upending += 1;
                 l.slots.push(Some(c));
                 l.sent.push(0);
                 c
             }
         }
     }
+}
+
+/// Connection structure, identical for both worlds (slot indices coincide).
+///
+/// Closing a socket releases it asynchronously (deferred `fput`, for the ring possibly on a
+/// worker thread), so *when* its peer sees the hang-up is not defined relative to the next
+/// entry or batch. A socket whose peer has been closed is therefore retired: later references
+/// to it resolve to a descriptor that is never open.
+#[derive(Default)]
+struct LaneModel {
+    /// unix connections waiting in the listener's queue: the client's slot
+    upq: std::collections::VecDeque<Option<usize>>,
+    peer: Vec<Option<usize>>,
+    dead: Vec<bool>,
 }
 
 #[derive(Debug, Clone, Copy, PartialEq, Eq)]
@@ -255,6 +273,8 @@ struct Entry {
     mem_a: Mem,
     mem_b: Mem,
     ud: u64,
+    /// for a unix accept that succeeded in the reference world: the client it was paired with
+    client: Option<usize>,
 }
 
 #[derive(Default)]
@@ -284,6 +304,9 @@ struct Engine<'c> {
     ud_next: u64,
     fds_at_start: usize,
     st: Stats,
+    model: Vec<LaneModel>,
+    ring_connect: bool,
+    accept_addr: bool,
 }
 
 const CTRL_WORDS: usize = 16; // 128 bytes of control buffer
@@ -325,7 +348,6 @@ impl<'c> Engine<'c> {
         self.a.close_all();
         self.b.close_all();
         self.s.finish();
-        let _ = std::fs::remove_dir_all(&self.root);
     }
 
     fn resolve(&self, lane: usize, r: SRef, nslots: usize) -> Sel {
@@ -338,7 +360,9 @@ impl<'c> Engine<'c> {
                     return Sel::Bad(2);
                 }
                 let idx = i as usize % nslots;
-                if self.b.lanes[lane].slots[idx].is_some() {
+                if self.model[lane].dead[idx] {
+                    Sel::Bad(4)
+                } else if self.b.lanes[lane].slots[idx].is_some() {
                     Sel::Slot(idx)
                 } else {
                     Sel::Bad(3)
@@ -442,12 +466,12 @@ impl<'c> Engine<'c> {
     }
 
     #[allow(clippy::too_many_arguments)]
-    fn exec_b(&mut self, lane: usize, op: &SOp, sel: &mut Option<Sel>, mflags: &mut i32, ev: &mut u16, mem: &mut Mem, nslots: usize) -> (Expect, bool) {
+    fn exec_b(&mut self, lane: usize, op: &SOp, sel: &mut Option<Sel>, mflags: &mut i32, ev: &mut u16, mem: &mut Mem, client: &mut Option<usize>) -> (Expect, bool) {
         unsafe {
             match op {
                 SOp::Socket { dom, ty, nb, ce, proto } => {
                     let d = [libc::AF_UNIX, libc::AF_INET, libc::AF_INET6, 46][*dom as usize % 4];
-                    let mut t = [libc::SOCK_STREAM, libc::SOCK_DGRAM, libc::SOCK_SEQPACKET, libc::SOCK_RAW][*ty as usize % 4];
+                    let mut t = [libc::SOCK_STREAM, libc::SOCK_DGRAM, libc::SOCK_SEQPACKET, libc::SOCK_RDM][*ty as usize % 4];
                     if *nb {
                         t |= libc::SOCK_NONBLOCK;
                     }
@@ -463,17 +487,16 @@ impl<'c> Engine<'c> {
                     }
                 }
                 SOp::Connect { to, .. } => {
-                    let s = sel.unwrap();
                     // never fill a backlog: a blocking connect would wait for an accept
-                    if *to % 3 == 0 && self.b.lanes[lane].upending >= 48 {
+                    if *to % 3 == 0 && self.model[lane].upq.len() >= 48 {
                         *sel = Some(Sel::Bad(7));
                     }
-                    let s = sel.unwrap_or(s);
+                    let s = sel.unwrap();
                     let fd = Self::fd_num(&self.b, lane, s);
                     let (sa, sl) = &**mem.csun.as_ref().unwrap();
                     let r = sys::ret(libc::connect(fd, (sa as *const libc::sockaddr_un).cast(), *sl) as i64);
                     if r == 0 {
-                        self.b.lanes[lane].upending += 1;
+                        self.model[lane].upq.push_back(if let Sel::Slot(i) = s { Some(i) } else { None });
                         self.st.connected = true;
                     }
                     (Expect::Exact(r), r < 0)
@@ -497,11 +520,10 @@ impl<'c> Engine<'c> {
                         sys::ret(libc::accept4(fd, core::ptr::null_mut(), core::ptr::null_mut(), fl) as i64)
                     };
                     if r >= 0 {
-                        let l = &mut self.b.lanes[lane];
                         if *inet {
-                            l.ipending -= 1;
+                            self.b.lanes[lane].ipending -= 1;
                         } else {
-                            l.upending -= 1;
+                            *client = self.model[lane].upq.pop_front().flatten();
                         }
                         (Expect::NewFd(r), false)
                     } else {
@@ -576,9 +598,11 @@ impl<'c> Engine<'c> {
                     if r == 0 {
                         if let Sel::Slot(i) = s {
                             self.b.lanes[lane].slots[i] = None;
+                            if let Some(j) = self.model[lane].peer[i] {
+                                self.model[lane].dead[j] = true;
+                            }
                         }
                     }
-                    let _ = nslots;
                     (Expect::Exact(r), r < 0)
                 }
             }
@@ -600,7 +624,7 @@ impl<'c> Engine<'c> {
             match &e.op {
                 SOp::Socket { dom, ty, nb, ce, proto } => {
                     let d = [AddressFamily::AF_UNIX, AddressFamily::AF_INET, AddressFamily::AF_INET6, AddressFamily::AF_MAX][*dom as usize % 4];
-                    let t = [SocketType::SOCK_STREAM, SocketType::SOCK_DGRAM, SocketType::SOCK_SEQPACKET, SocketType::SOCK_RAW][*ty as usize % 4];
+                    let t = [SocketType::SOCK_STREAM, SocketType::SOCK_DGRAM, SocketType::SOCK_SEQPACKET, SocketType::SOCK_RDM][*ty as usize % 4];
                     let mut sf = SocketFlags::empty();
                     if *nb {
                         sf |= SocketFlags::SOCK_NONBLOCK;
@@ -669,6 +693,18 @@ impl<'c> Engine<'c> {
         }
     }
 
+    /// Harness action: a new client connects directly, in both worlds.
+    fn direct_connect(&mut self, lane: usize, inet: bool) {
+        self.a.direct_connect(lane, inet);
+        self.b.direct_connect(lane, inet);
+        if !inet {
+            let m = &mut self.model[lane];
+            m.upq.push_back(Some(m.peer.len()));
+            m.peer.push(None);
+            m.dead.push(false);
+        }
+    }
+
     fn normalise(&self, chains: &[SChain]) -> Vec<(usize, Vec<SOpG>)> {
         let cap = self.s.sq_entries as usize;
         let pr = ring::probe();
@@ -697,10 +733,16 @@ impl<'c> Engine<'c> {
                     continue;
                 }
                 let mut g = g.clone();
-                if let SOp::Accept { inet, .. } = &mut g.op {
+                if let SOp::Accept { inet, addr, .. } = &mut g.op {
                     if !self.inet {
                         *inet = false;
                     }
+                    if !self.accept_addr {
+                        *addr = false;
+                    }
+                }
+                if matches!(g.op, SOp::Connect { .. }) && !self.ring_connect {
+                    continue;
                 }
                 ops.push(g);
             }
@@ -732,12 +774,11 @@ impl<'c> Engine<'c> {
             for inet in [false, true] {
                 let need = ops.iter().filter(|g| matches!(g.op, SOp::Accept { inet: i, .. } if i == inet)).count();
                 loop {
-                    let have = if inet { self.b.lanes[*lane].ipending } else { self.b.lanes[*lane].upending };
+                    let have = if inet { self.b.lanes[*lane].ipending } else { self.model[*lane].upq.len() };
                     if have >= need {
                         break;
                     }
-                    self.a.direct_connect(*lane, inet);
-                    self.b.direct_connect(*lane, inet);
+                    self.direct_connect(*lane, inet);
                 }
             }
         }
@@ -767,10 +808,11 @@ impl<'c> Engine<'c> {
                 let ud = self.ud_next;
                 self.ud_next += 1;
                 let mut mem_b = Self::build_mem(&self.b, *lane, &op, false);
+                let mut client = None;
                 let exp = if severed {
                     Expect::Cancelled
                 } else {
-                    let (exp, failed) = self.exec_b(*lane, &op, &mut sel, &mut mflags, &mut ev, &mut mem_b, nslots[*lane]);
+                    let (exp, failed) = self.exec_b(*lane, &op, &mut sel, &mut mflags, &mut ev, &mut mem_b, &mut client);
                     if failed {
                         self.st.failing = true;
                         if ring::probe().rule(op.kind()) == LinkRule::Breaks {
@@ -783,7 +825,7 @@ impl<'c> Engine<'c> {
                     self.st.cancelled = true;
                 }
                 let mem_a = Self::build_mem(&self.a, *lane, &op, true);
-                entries.push(Entry { lane: *lane, pos, last: pos + 1 == n, op, a: g.a, sel, mflags, ev, exp, mem_a, mem_b, ud });
+                entries.push(Entry { lane: *lane, pos, last: pos + 1 == n, op, a: g.a, sel, mflags, ev, exp, mem_a, mem_b, ud, client });
             }
         }
         {
@@ -828,17 +870,24 @@ impl<'c> Engine<'c> {
         }
         let adopt = self.adopt(&entries, &cq);
         if !mism.is_empty() {
-            let (i, res) = *mism.iter().find(|(_, r)| *r != -sys::ECANCELED).unwrap_or(&mism[0]);
+            let (i, res, before_issue) = root_cause(&mism, |i| (entries[i].lane, entries[i].pos), |i| cq.iter().find(|c| c.0 == entries[i].ud).unwrap().1, entries.len());
             let e = &entries[i];
             let (exp_s, class) = match &e.exp {
                 Expect::Exact(v) => (show(*v), format!("ring={} direct={}", cls(res), cls(*v))),
                 Expect::Cancelled => ("-ECANCELED (an earlier entry of the link chain failed)".to_string(), "not-cancelled".to_string()),
                 Expect::NewFd(_) => ("a new descriptor".to_string(), format!("ring={} direct=fd", cls(res))),
             };
-            let class = if res == -sys::ECANCELED && e.exp != Expect::Cancelled { "cancelled".to_string() } else { class };
+            let class = if before_issue {
+                "failed-before-issue".to_string()
+            } else if res == -sys::ECANCELED && e.exp != Expect::Cancelled {
+                "cancelled".to_string()
+            } else {
+                class
+            };
+            let note = if before_issue { "; earlier entries of its chain were cancelled although they come first: the kernel rejected this entry when the chain was submitted, not when it was its turn" } else { "" };
             return Err(Failure::new(
                 format!("{}|res-mismatch|{}", e.op.ctor(), class),
-                format!("step {bi}, lane {}, chain position {}{}: {:?} completed with res {} through the ring; the direct call gives {}", e.lane, e.pos, if e.last { " (last)" } else { " (linked)" }, e.op, show(res), exp_s),
+                format!("step {bi}, lane {}, chain position {}{}: {:?} completed with res {} through the ring; the direct call gives {}{}", e.lane, e.pos, if e.last { " (last)" } else { " (linked)" }, e.op, show(res), exp_s, note),
             ));
         }
         adopt?;
@@ -925,7 +974,6 @@ impl<'c> Engine<'c> {
                         }
                     }
                 }
-                (SOp::Connect { .. }, _) if res == 0 => self.a.lanes[e.lane].upending += 1,
                 (SOp::Sendmsg { .. }, Some(Sel::Slot(i))) if res > 0 => self.a.lanes[e.lane].sent[i] += res as usize,
                 _ => {}
             }
@@ -954,17 +1002,26 @@ impl<'c> Engine<'c> {
                     if is_acc {
                         self.st.accepted = true;
                         self.st.accept_inet |= inet;
-                        let la = &mut self.a.lanes[e.lane];
                         if inet {
-                            la.ipending -= 1;
-                        } else {
-                            la.upending -= 1;
+                            self.a.lanes[e.lane].ipending -= 1;
                         }
                     }
                     if is_acc && inet {
                         self.a.lanes[e.lane].extra.push(a);
                         self.b.lanes[e.lane].extra.push(b);
                     } else {
+                        let m = &mut self.model[e.lane];
+                        let idx = m.peer.len();
+                        m.peer.push(e.client);
+                        // a connection whose client is already closed (or retired) is born retired
+                        let client_gone = is_acc && match e.client {
+                            Some(c) => self.b.lanes[e.lane].slots[c].is_none() || m.dead[c],
+                            None => true,
+                        };
+                        m.dead.push(client_gone);
+                        if let Some(c) = e.client {
+                            m.peer[c] = Some(idx);
+                        }
                         for (w, fd) in [(&mut self.a, a), (&mut self.b, b)] {
                             w.lanes[e.lane].slots.push(Some(fd));
                             w.lanes[e.lane].sent.push(0);
@@ -975,15 +1032,6 @@ impl<'c> Engine<'c> {
                 (Some(a), None) => sys::close_quiet(a),
                 (None, Some(b)) => {
                     sys::close_quiet(b);
-                    // world B consumed a pending connection that world A still has
-                    if is_acc {
-                        let lb = &mut self.b.lanes[e.lane];
-                        if inet {
-                            lb.ipending += 1;
-                        } else {
-                            lb.upending += 1;
-                        }
-                    }
                 }
                 (None, None) => {}
             }
@@ -1007,6 +1055,26 @@ impl<'c> Engine<'c> {
     }
 }
 
+/// Which entry to blame for a batch with mismatches `(index, res)`: the first one whose result is
+/// not merely an unexpected cancellation; if there are only unexpected cancellations, a later
+/// entry of the same chain that failed on its own (it was rejected at submission, which takes
+/// the whole chain down); else the first mismatch. Returns (index, its res, rejected-before-issue).
+pub fn root_cause(mism: &[(usize, i32)], chain_pos: impl Fn(usize) -> (usize, usize), res_of: impl Fn(usize) -> i32, n: usize) -> (usize, i32, bool) {
+    if let Some(&(i, r)) = mism.iter().find(|(_, r)| *r != -sys::ECANCELED) {
+        return (i, r, false);
+    }
+    let (i0, r0) = mism[0];
+    let (lane, pos) = chain_pos(i0);
+    for j in 0..n {
+        let (l, p) = chain_pos(j);
+        let r = res_of(j);
+        if l == lane && p > pos && r < 0 && r != -sys::ECANCELED {
+            return (j, r, true);
+        }
+    }
+    (i0, r0, false)
+}
+
 fn cls(v: i32) -> String {
     if v >= 0 {
         "ok".to_string()
@@ -1025,13 +1093,11 @@ fn show(v: i32) -> String {
 
 pub fn run_case(ctx: &Ctx, case: &SockCase) -> CaseResult {
     let root = case_root(ctx);
-    let _ = std::fs::remove_dir_all(&root);
     std::fs::create_dir_all(&root).unwrap();
     let fds_at_start = sys::open_fd_count();
     let s = match Session::new(case.cfg) {
         Ok(s) => s,
         Err(e) => {
-            let _ = std::fs::remove_dir_all(&root);
             if ring::probe().accepts(&case.cfg) {
                 return Err(Failure::new("setup_io_uring|error|accepted flag set", format!("setup_io_uring({}, {}) failed: {e}", case.cfg.entries, case.cfg.flag_name())));
             }
@@ -1043,16 +1109,29 @@ pub fn run_case(ctx: &Ctx, case: &SockCase) -> CaseResult {
     let a = World::create(&format!("{}/A", root.display()), inet);
     let b = World::create(&format!("{}/B", root.display()), inet);
     let inet = inet && a.lanes.iter().chain(b.lanes.iter()).all(|l| l.ilisten >= 0);
-    let mut e = Engine { ctx, s, a, b, root, inet, ud_next: 0x2_0000, fds_at_start, st: Stats::default() };
+    let mut e = Engine { ctx, s, a, b, root, inet, ud_next: 0x2_0000, fds_at_start, st: Stats::default(), model: (0..NL).map(|_| LaneModel::default()).collect(), ring_connect: case.ring_connect, accept_addr: case.accept_addr };
+    // every lane starts with one established connection: slot 0 the client, slot 1 the accepted end
+    for l in 0..NL {
+        e.direct_connect(l, false);
+        e.model[l].upq.pop_front();
+        for w in [&mut e.a, &mut e.b] {
+            let fd = unsafe { libc::accept4(w.lanes[l].ulisten, core::ptr::null_mut(), core::ptr::null_mut(), 0) };
+            assert!(fd >= 0, "harness: accept of the initial connection failed");
+            w.lanes[l].slots.push(Some(fd));
+            w.lanes[l].sent.push(0);
+        }
+        e.model[l].peer[0] = Some(1);
+        e.model[l].peer.push(Some(0));
+        e.model[l].dead.push(false);
+    }
     let mut res: Result<(), Failure> = Ok(());
     for (i, st) in case.steps.iter().enumerate() {
         match st {
             Step::Batch(chains) => res = e.run_batch(i, chains),
             Step::DirectConnect { lane } => {
                 let l = *lane as usize % NL;
-                if e.b.lanes[l].upending < 48 {
-                    e.a.direct_connect(l, false);
-                    e.b.direct_connect(l, false);
+                if e.model[l].upq.len() < 48 {
+                    e.direct_connect(l, false);
                 }
             }
         }
@@ -1133,10 +1212,10 @@ fn lens() -> impl Strategy<Value = Vec<u16>> {
 
 pub fn sop_strategy() -> impl Strategy<Value = SOp> {
     prop_oneof![
-        3 => (prop_oneof![6 => Just(0u8), 2 => Just(1u8), 1 => Just(2u8), 1 => Just(3u8)], prop_oneof![6 => Just(0u8), 2 => Just(1u8), 1 => Just(2u8), 1 => Just(3u8)], any::<bool>(), any::<bool>(), prop_oneof![6 => Just(0u8), 1 => 1u8..4])
+        2 => (prop_oneof![6 => Just(0u8), 2 => Just(1u8), 1 => Just(2u8), 1 => Just(3u8)], prop_oneof![6 => Just(0u8), 2 => Just(1u8), 1 => Just(2u8), 1 => Just(3u8)], any::<bool>(), any::<bool>(), prop_oneof![6 => Just(0u8), 1 => 1u8..4])
             .prop_map(|(dom, ty, nb, ce, proto)| SOp::Socket { dom, ty, nb, ce, proto }),
-        1 => (sref(), prop_oneof![4 => Just(0u8), 1 => Just(1u8), 1 => Just(2u8)]).prop_map(|(sock, to)| SOp::Connect { sock, to }),
-        3 => (prop::bool::weighted(0.25), prop::bool::weighted(0.2), any::<bool>(), any::<bool>()).prop_map(|(inet, addr, nb, ce)| SOp::Accept { inet, addr, nb, ce }),
+        2 => (sref(), prop_oneof![4 => Just(0u8), 1 => Just(1u8), 1 => Just(2u8)]).prop_map(|(sock, to)| SOp::Connect { sock, to }),
+        3 => (prop::bool::weighted(0.25), prop::bool::weighted(0.5), any::<bool>(), any::<bool>()).prop_map(|(inet, addr, nb, ce)| SOp::Accept { inet, addr, nb, ce }),
         5 => (sref(), lens(), any::<u8>(), prop::bool::weighted(0.3), any::<bool>(), 0u8..4).prop_map(|(sock, lens, fill, pass_fd, raw, fl)| SOp::Sendmsg { sock, lens, fill, pass_fd, raw, fl }),
         5 => (sref(), lens(), any::<bool>(), any::<bool>(), prop::bool::weighted(0.15)).prop_map(|(sock, lens, ctrl, dontwait, peek)| SOp::Recvmsg { sock, lens, ctrl, dontwait, peek }),
         2 => (sref(), 0u16..128).prop_map(|(sock, ev)| SOp::PollAdd { sock, ev }),
@@ -1148,5 +1227,5 @@ pub fn case_strategy(max_steps: usize) -> impl Strategy<Value = SockCase> {
     let opg = (sop_strategy(), prop::bool::weighted(0.15)).prop_map(|(op, a)| SOpG { op, a });
     let chain = (0u8..NL as u8, prop::collection::vec(opg, 1..=6)).prop_map(|(lane, ops)| SChain { lane, ops });
     let step = prop_oneof![5 => prop::collection::vec(chain, 1..=NL).prop_map(Step::Batch), 1 => (0u8..NL as u8).prop_map(|lane| Step::DirectConnect { lane })];
-    (ring::cfg_strategy(), prop::collection::vec(step, 1..=max_steps)).prop_map(|(cfg, steps)| SockCase { cfg, steps })
+    (ring::cfg_strategy(), prop::bool::weighted(0.2), prop::bool::weighted(0.2), prop::collection::vec(step, 1..=max_steps)).prop_map(|(cfg, ring_connect, accept_addr, steps)| SockCase { cfg, ring_connect, accept_addr, steps })
 }
